@@ -57,10 +57,10 @@ theorem C08_one_slot (c : Case) (hwf : wf c = true) (f : String) (hf : f ∈ c.o
   slotCount_own c (wf_names c hwf) (wf_layout c hwf) f hf
 
 /-- **C08_weakref_iff**: instances are weak-referenceable iff `weakref_slot` is on or a class of the MRO
-    provides `__weakref__` (outside K08b: a body that itself lists `__weakref__` in `__slots__`). -/
-theorem C08_weakref_iff (c : Case) (hwf : wf c = true) (hk : weakrefDropped c = false) :
+    provides `__weakref__` — whatever `__slots__` the body itself declares. -/
+theorem C08_weakref_iff (c : Case) (hwf : wf c = true) :
     (model c).weakrefable = (c.weakrefSlot || c.mro.any (·.hasWeakref)) :=
-  weakrefable_iff c (wf_names c hwf) (wf_body c hwf) (wf_layout c hwf) hk
+  weakrefable_iff c (wf_names c hwf) (wf_body c hwf) (wf_layout c hwf)
 
 /-- **C08_no_dict_iff**: instances have a `__dict__` iff a class of the MRO contributes one. -/
 theorem C08_no_dict_iff (c : Case) (hwf : wf c = true) : (model c).hasDict = c.mro.any (·.hasDict) :=
@@ -80,9 +80,9 @@ theorem C08_unknown_attr_rejected (c : Case) (hwf : wf c = true) :
 
 /-- **C08_cells_rebound**: after the rewrite no closure cell of anything the loop inspects holds the
     original class: the values of the new class dict (plain functions, the `__func__` of class- and
-    staticmethods, the *getter* of properties, the generated `__getattr__`), the cached-property functions,
-    and the `__getattr__` the generated one shadows.  Setters, deleters and functions inside other objects
-    are not inspected (the loop's own comment: "no universal way"); see `C08_cells_exact`. -/
+    staticmethods, getter, setter and deleter of properties, the generated `__getattr__`), the
+    cached-property functions, and the `__getattr__` the generated one shadows.  Functions inside other
+    objects are not inspected (the loop's own comment: "no universal way"); see `C08_cells_exact`. -/
 theorem C08_cells_rebound (c : Case) :
     (∀ k e, Dict.get (newDict c) k = some e → ∀ i, CellId.user i ∈ entryCells e → finalCell c i ≠ .old) ∧
     (∀ n f, (n, f) ∈ cachedProps c → ∀ i ∈ f.cells, finalCell c i ≠ .old) ∧
@@ -92,14 +92,14 @@ theorem C08_cells_rebound (c : Case) :
    fun n f h i hi => reached_not_old c i (reached_of_cprop c n f h i hi),
    fun e hne h i hi => reached_not_old c i (reached_of_origGetattr c e hne h _ hi)⟩
 
-/-- by item kind: a function, classmethod, staticmethod found in the new class, the getter of such a
-    property, and every cached property of the body that survives the field-name filter have all their cells
-    rebound (whether an item is found in the new class is `C08_dict_preserved`) -/
+/-- by item kind: a function, classmethod, staticmethod found in the new class, getter, setter and deleter of
+    such a property, and every cached property of the body that survives the field-name filter have all their
+    cells rebound (whether an item is found in the new class is `C08_dict_preserved`) -/
 theorem C08_cells_rebound_kinds (c : Case) (hwf : wf c = true) (k : String) (it : Item) (hm : (k, it) ∈ c.body)
     (hk : keepKey c k = true) (hkept : (∀ f, it ≠ .cprop f) → Dict.get (newDict c) k = some (.orig it)) :
     match it with
     | .fn f | .cm f | .sm f | .cprop f => ∀ i ∈ f.cells, finalCell c i ≠ .old
-    | .prop (some g) _ _ => ∀ i ∈ g.cells, finalCell c i ≠ .old
+    | .prop g s d => ∀ f ∈ g.toList ++ s.toList ++ d.toList, ∀ i ∈ f.cells, finalCell c i ≠ .old
     | _ => True := by
   have hb := wf_body c hwf
   cases it with
@@ -119,29 +119,34 @@ theorem C08_cells_rebound_kinds (c : Case) (hwf : wf c = true) (k : String) (it 
     intro i hi
     exact reached_not_old c i (reached_of_cprop c k f (cachedProps_of_body c hb k f hm hk) i hi)
   | prop g s d =>
-    cases g with
-    | none => trivial
-    | some g' =>
-      intro i hi
-      exact reached_not_old c i (reached_of_dict c k _ (hkept (fun _ e => by cases e)) _
-        (by simpa [entryCells, optIds] using ids_mem g' i hi))
+    intro f hf i hi
+    apply reached_not_old c i
+    apply reached_of_dict c k _ (hkept (fun _ e => by cases e))
+    have hid := ids_mem f i hi
+    simp only [entryCells, List.mem_append]
+    simp only [List.mem_append, Option.mem_toList] at hf
+    rcases hf with (hf | hf) | hf
+    · subst hf; exact Or.inl (Or.inl hid)
+    · subst hf; exact Or.inl (Or.inr hid)
+    · subst hf; exact Or.inr hid
   | «opaque» f => trivial
   | plain => trivial
 
 /-- **C08_cells_exact**: a cell holds the new class afterwards iff it held the original class and is a cell
-    of something the loop inspects; every other cell is unchanged.  In particular a property setter or
-    deleter sees the new class iff its cell is shared with an inspected function (K08a otherwise). -/
+    of something the loop inspects; every other cell is unchanged (cells holding another object, empty cells,
+    cells only reachable through objects attrs cannot look into). -/
 theorem C08_cells_exact (c : Case) (hwf : wf c = true) (i : Nat) :
     (finalCell c i = .new ↔ lookupN i c.cells = some .old ∧ CellId.user i ∈ reachedCells c) ∧
     (∀ v, lookupN i c.cells = some v → v ≠ .old → finalCell c i = v) :=
   ⟨finalCell_new_iff c (wf_cells c hwf) i, fun v hl hv => finalCell_frame c i v hl hv⟩
 
-/-- every function the property talks about (not hidden in a foreign object; setters and deleters outside
-    K08a) that is reachable on the new class and uses `__class__` / `super()` sees the new class -/
-theorem C08_calls_new (c : Case) (hwf : wf c = true) (hk : staleAccessor c = false) (l : Label) (v : CellVal)
-    (h : (l, v) ∈ calls c) : v = .new ∨ isOpaqueKey c l.1 = true := by
-  have := List.all_eq_true.1 (calls_all_new c (wf_body c hwf) (wf_cells c hwf) hk) (l, v) h
-  simpa using this
+/-- **C08_calls_new**: every function that is reachable on the new class and uses `__class__` / `super()` —
+    plain, class- and staticmethods, property getters, setters and deleters, cached properties, a shadowed
+    `__getattr__` — sees the new class; the only exception are functions hidden in objects attrs cannot look
+    into (wrappers, foreign descriptors). -/
+theorem C08_calls_new (c : Case) (hwf : wf c = true) (l : Label) (v : CellVal)
+    (h : (l, v) ∈ calls c) : v = .new ∨ isOpaqueKey c l.1 = true :=
+  calls_entry c (wf_body c hwf) (wf_cells c hwf) l v h
 
 /-- **C08_cached_once**: over an arbitrary history of reads on arbitrary instances, every (instance, cached
     property) pair that is read is computed exactly once, nothing else is computed, and every read returns the
@@ -197,6 +202,25 @@ theorem C08_metamorphic (c : MetaCase) (hwf : metaWf c = true) (hk : metaKnown c
     ctorObs c.on = ctorObs c.off :=
   ctor_agree c hwf hk
 
+/-- **C08_meta_reset**: whether the builder writes its own `__setattr__` does not depend on `slots`; so the two
+    builds of a specification treat an inherited attrs-made `__setattr__` differently (K6) exactly when nothing
+    is written and "some direct base carries the flag" differs from "the flag resolved along the MRO is true" —
+    e.g. a plain class between a hooked attrs class and the leaf. -/
+theorem C08_meta_reset (c : MetaCase) (hwf : metaWf c = true) :
+    wroteSetattr c.on = wroteSetattr c.off ∧
+    (metaResetDiffers c = true ↔
+      wroteSetattr c.off = false ∧
+      c.mro.any (fun b => b.direct && b.ownSetattr == some true) ≠ ((c.mro.findSome? (·.ownSetattr)).getD false)) := by
+  unfold metaWf at hwf
+  simp only [Bool.and_eq_true] at hwf
+  have hw := wrote_same c hwf.2
+  refine ⟨hw, ?_⟩
+  unfold metaResetDiffers metaSlotsReset metaDictReset
+  rw [hw]
+  cases wroteSetattr c.off <;>
+    cases c.mro.any (fun b => b.direct && b.ownSetattr == some true) <;>
+    cases (c.mro.findSome? (·.ownSetattr)).getD false <;> simp
+
 /-- K3 needs a frozen dict class: the slotted build of a specification never misplaces a value -/
 theorem C08_slotted_never_misplaces (c : MetaCase) (hwf : metaWf c = true) (a : Attr) :
     C01.misplaced c.on.eff a = false := by
@@ -211,7 +235,7 @@ theorem C08_slotted_never_misplaces (c : MetaCase) (hwf : metaWf c = true) (a : 
     simp_all
 
 /-- **C08_model_meets_spec**: the model satisfies the declarative specification on every well-formed case of
-    every kind outside the listed known findings (K08a, K08b, K6 for struct; K3 for meta). -/
+    every kind outside the listed known findings (K6 for struct; K3, K6 for meta). -/
 theorem C08_model_meets_spec (c : AnyCase) (hwf : c.wf = true) (hk : c.known = []) : c.spec c.model = true := by
   cases c with
   | ofStruct c => exact struct_meets_spec c hwf hk
@@ -229,26 +253,21 @@ def k08aWitness : Case :=
   { baseCase with
     body := [("p", .prop none (some { cells := [0], uses := true }) none)], cells := [(0, .old)] }
 
-/-- **K08a**: the setter keeps the original class -/
-theorem C08_known_stale_accessor_witness :
-    wf k08aWitness = true ∧ "K08a" ∈ known k08aWitness ∧ spec k08aWitness (model k08aWitness) = false := by
-  refine ⟨by decide, by decide, by decide⟩
-
-/-- the same setter next to a getter that shares the compiler's `__class__` cell is fine -/
-example : wf { k08aWitness with body := [("p", .prop (some { cells := [0], uses := true })
-      (some { cells := [0], uses := true }) none)] } = true ∧
-    known { k08aWitness with body := [("p", .prop (some { cells := [0], uses := true })
-      (some { cells := [0], uses := true }) none)] } = [] := by
-  refine ⟨by decide, by decide⟩
+/-- regression for the repaired K08a: the setter sees the new class, the case satisfies the specification -/
+theorem C08_fixed_stale_accessor :
+    wf k08aWitness = true ∧ known k08aWitness = [] ∧ (model k08aWitness).calls = [(("p", .fset), .new)] ∧
+    spec k08aWitness (model k08aWitness) = true := by
+  refine ⟨by decide, by decide, by decide, by decide⟩
 
 /-- a body that declares `__slots__ = ("__weakref__",)` itself -/
 def k08bWitness : Case :=
   { baseCase with body := [("__slots__", .plain), ("__weakref__", .plain)], bodySlots := some ["__weakref__"] }
 
-/-- **K08b**: not weak-referenceable although `weakref_slot` is on -/
-theorem C08_known_weakref_dropped_witness :
-    wf k08bWitness = true ∧ "K08b" ∈ known k08bWitness ∧ spec k08bWitness (model k08bWitness) = false := by
-  refine ⟨by decide, by decide, by decide⟩
+/-- regression for the repaired K08b: weak-referenceable, the case satisfies the specification -/
+theorem C08_fixed_weakref_dropped :
+    wf k08bWitness = true ∧ known k08bWitness = [] ∧ (model k08bWitness).weakrefable = true ∧
+    spec k08bWitness (model k08bWitness) = true := by
+  refine ⟨by decide, by decide, by decide, by decide⟩
 
 /-- a plain class between a hooked slotted attrs base and the class ("slotted confused") -/
 def k6Witness : Case :=
@@ -272,7 +291,7 @@ example : wf { k6Witness with mro := k6Witness.mro.drop 1 |>.map (fun b => { b w
 /-- K3 as a slots-on / slots-off pair: `A(frozen, slots) ← B(frozen dict) ← C`, legacy collection -/
 def k3Pair : MetaCase :=
   { on := { C01.k3Witness with run := { C01.k3Witness.run with cfg := { C01.k3Witness.run.cfg with slots := true } } },
-    off := C01.k3Witness }
+    off := C01.k3Witness, mro := [] }
 
 /-- **K3**: the dict build of the specification lacks the field the slotted build has -/
 theorem C08_known_slot_belief_witness :
@@ -282,10 +301,23 @@ theorem C08_known_slot_belief_witness :
 /-- non-vacuity of `C08_metamorphic`: a well-formed pair without known finding (a mutable class) -/
 def okPair : MetaCase :=
   { on := { k3Pair.on with run := { k3Pair.on.run with cfg := { k3Pair.on.run.cfg with frozen := false } } },
-    off := { k3Pair.off with run := { k3Pair.off.run with cfg := { k3Pair.off.run.cfg with frozen := false } } } }
+    off := { k3Pair.off with run := { k3Pair.off.run with cfg := { k3Pair.off.run.cfg with frozen := false } } },
+    mro := [] }
 
 example : metaWf okPair = true ∧ metaKnown okPair = [] := by
   refine ⟨by decide, by decide⟩
+
+/-- hooked attrs class ← plain class ← leaf, as a slots-on / slots-off pair -/
+def k6Pair : MetaCase :=
+  { okPair with mro := [{ direct := true, ownSetattr := none }, { direct := false, ownSetattr := some true }] }
+
+/-- **K6** (meta): the slotted leaf keeps the ancestor's `__setattr__`, the dict leaf resets it -/
+theorem C08_known_reset_differs_meta_witness :
+    metaWf k6Pair = true ∧ "K6" ∈ metaKnown k6Pair ∧ metaSpec k6Pair (metaModel k6Pair) = false := by
+  refine ⟨by decide, by decide, by decide⟩
+
+/-- with the hooked class as the direct base both builds reset -/
+example : metaKnown { okPair with mro := [{ direct := true, ownSetattr := some true }] } = [] := by decide
 
 /-- non-vacuity of the struct theorems: a class with a reused base slot, a cached property, a hooked direct
     base and a function using `super()` is well-formed and free of known findings -/
